@@ -4,6 +4,8 @@ import (
 	"fmt"
 	"go/ast"
 	"go/token"
+	"os"
+	"path/filepath"
 	"strings"
 )
 
@@ -449,6 +451,59 @@ func extractC07(c *Ctx) error {
 		}
 	}
 	c.P("Definition processed_set_keyed_by_tx_hash : bool := true.")
+	// isTxProcessed must be pure key presence: anything else (value, block height, time) is an unknown shape
+	itp := FindFunc(af, "Keeper", "isTxProcessed")
+	// (reported through the generated definition, so that the theorem gates_as_modelled -- the proof step -- breaks,
+	// together with the list of functions that delete from the store)
+	consults := "key presence"
+	if len(itp.Body.List) != 2 || c.Src(itp.Body.List[0]) != "kv := k.txAlreadyProcessedStore(ctx)" ||
+		c.Src(itp.Body.List[1]) != "return kv.Has(tx.Hash().Bytes())" {
+		consults = "UNKNOWN SHAPE (more than key presence): " + strings.Join(strings.Fields(c.Src(itp.Body)), " ")
+	}
+	c.P("Definition is_tx_processed_consults : string := %s.", CoqStr(consults))
+	c.Info("is_tx_processed_consults", consults)
+	stp := FindFunc(af, "Keeper", "setTxAsAlreadyProcessed")
+	if len(stp.Body.List) < 2 || c.Src(stp.Body.List[0]) != "kv := k.txAlreadyProcessedStore(ctx)" ||
+		!strings.HasPrefix(c.Src(stp.Body.List[len(stp.Body.List)-1]), "kv.Set(tx.Hash().Bytes(), ") {
+		return fmt.Errorf("setTxAsAlreadyProcessed is no longer `kv := k.txAlreadyProcessedStore(ctx); ...; kv.Set(tx.Hash().Bytes(), ...)`")
+	}
+	// who touches the processed-tx store at all, and who deletes from / iterates over it
+	users, deleters := map[string]bool{}, map[string]bool{}
+	for _, dir := range []string{"x/evm", "x/evm/keeper"} {
+		ents, err := os.ReadDir(filepath.Join(c.Repo, dir))
+		if err != nil {
+			return err
+		}
+		for _, e := range ents {
+			n := e.Name()
+			if e.IsDir() || !strings.HasSuffix(n, ".go") || strings.HasSuffix(n, "_test.go") || strings.HasPrefix(n, "verif_hooks") {
+				continue
+			}
+			pf, err := c.Parse(filepath.Join(dir, n))
+			if err != nil {
+				return err
+			}
+			for _, d := range pf.Decls {
+				fd, ok := d.(*ast.FuncDecl)
+				if !ok || fd.Body == nil {
+					continue
+				}
+				b := c.Src(fd.Body)
+				if !strings.Contains(b, "txAlreadyProcessedStore(") && !strings.Contains(b, "\"tx-processed\"") {
+					continue
+				}
+				users[fd.Name.Name] = true
+				if strings.Contains(b, ".Delete(") || strings.Contains(b, "Iterator(") {
+					deleters[fd.Name.Name] = true
+				}
+			}
+		}
+	}
+	c.P("(* every function of x/evm that reaches the \"tx-processed\" store; those that delete from or iterate over it *)")
+	c.P("Definition processed_store_users : list string := %s.", CoqStrList(SortedSet(users)))
+	c.P("Definition processed_store_deleters : list string := %s.", CoqStrList(SortedSet(deleters)))
+	c.Info("processed_store_users", SortedSet(users))
+	c.Info("processed_store_deleters", SortedSet(deleters))
 	c.Info("packed", info)
 	c.Info("flush_on", flush)
 	c.Info("receipt_gate", gate)
